@@ -57,6 +57,13 @@ def impl_spanning_cidr(items, container):
         seq = tuple(objs)
     elif container == 2:
         seq = (o for o in objs)
+    elif container == 3:
+        # the sequence is a ranged object iterated by spanning_cidr itself: the items are its consecutive addresses
+        vs = [it[1] for it in items]
+        assert vs == list(range(vs[0], vs[0] + len(vs))) and all(it[2] == gens.W[it[0]] for it in items)
+        seq = netaddr.IPRange(netaddr.IPAddress(vs[0], items[0][0]), netaddr.IPAddress(vs[-1], items[0][0]))
+    elif container == 4:
+        seq = iter(objs)
     else:
         seq = objs
     r = netaddr.spanning_cidr(seq)
@@ -341,3 +348,20 @@ def cases(rng, tier):
                 p2 = w - min(k, rng.choice([0, 1, 2]))
                 yield ("spanning_cidr", [[[ver, base, w - k, F_NET], [ver, hi, p2, F_NET]], 0], "cross")
                 yield ("spanning_cidr", [[[ver, hi, w, F_NET], [ver, base, w, F_NET]], 0], "cross")
+
+
+# ---- the sequence handed over as an IPRange object (consecutive addresses), at the bottom/top of both families
+_cases_without_ranges = cases
+
+
+def cases(rng, tier):
+    yield from _cases_without_ranges(rng, tier)
+    for ver in (4, 6):
+        w = gens.W[ver]
+        mx = 2 ** w - 1
+        starts = [0, 1, 5, mx - 9, 2 ** 32 - 3 if ver == 6 else 2 ** 31 - 3, 2 ** 32 if ver == 6 else 2 ** 24, rng.getrandbits(w) % (mx - 16)]
+        for s0 in starts:
+            for n in (2, 3, 6, 9):
+                items = [[ver, s0 + i, w, F_NET] for i in range(n)]
+                yield ("spanning_cidr", [items, 3], "range_as_sequence")
+                yield ("spanning_cidr", [items, 4], "iterator")
